@@ -55,6 +55,7 @@ class Effects:
         self.maywrite = {}    # func -> set(paths) (transitive)
         self.mayread = {}
         self.struct_fields = {}
+        self.ret_alias = {}   # crate-local fn -> aliases (relative to its `self`) its returned pointer may have
         for p, a in prog.adts.items():
             if a['kind'] == 'struct':
                 self.struct_fields[p] = {f['name']: f['ty'] for f in a['variants'][0]['fields']}
@@ -181,6 +182,22 @@ class Effects:
                         changed |= add(dst['local'], ents)
                 t = bb['term']
                 if t['k'] == 'call':
+                    # a crate-local callee with a known return-alias summary (`fn row_mut(&mut self, ..) -> &mut Row`):
+                    # the result points where the callee says, re-based on the `self` passed
+                    fn_ = t['func'].get('fn') if t['func']['k'] == 'const' else None
+                    kind_, callee_ = self.prog.resolve_callee(fn_)
+                    ra = self.ret_alias.get(callee_) if kind_ == 'local' else None
+                    if ra is not None and t['args'] and t['args'][0]['k'] in ('copy', 'move'):
+                        pl0 = t['args'][0]['place']
+                        al0 = alias.get(pl0['local'], set())
+                        if any(e['k'] == 'deref' for e in pl0['proj']):
+                            al0 = place_alias(pl0)
+                        if al0 and all(e for (_p, e, _m) in al0):
+                            dm_ = carries_mut(t['dest']['ty'])
+                            new_ = {(tuple(b_) + tuple(q_), False, m_ and m2_ and dm_) for (b_, _e, m_) in al0 for (q_, _e2, m2_) in ra}
+                            if carries_ptr(t['dest']['ty']):
+                                changed |= add(t['dest']['local'], new_)
+                            continue
                     ents = set()
                     for a in t['args']:
                         if a['k'] in ('copy', 'move'):
@@ -265,6 +282,23 @@ class Effects:
         info = {}
         for p, b in prog.bodies.items():
             info[p] = self._analyse(b)
+        # return-alias summaries of helpers that hand out references into the screen, then a second
+        # round so that their callers see field-precise aliases instead of "somewhere in the screen"
+        for _round in range(2):
+            ra = {}
+            for p, b in prog.bodies.items():
+                if b.kind == 'closure' or b.arg_count < 1 or b.locals[1]['ty'] not in ('&mut screen::Screen', '&screen::Screen'):
+                    continue
+                if not carries_ptr(b.locals[0]['ty']):
+                    continue
+                al = info[p][3].get(0, set())
+                if al and all(pth for (pth, _e, _m) in al):
+                    ra[p] = set(al)
+            if ra == self.ret_alias:
+                break
+            self.ret_alias = ra
+            for p, b in prog.bodies.items():
+                info[p] = self._analyse(b)
         # closures capturing aliases: re-analyse with the captured aliases seeded (nested closures:
         # iterate parents first, two rounds are enough for the nesting depth in this crate)
         for _ in range(3):
